@@ -177,6 +177,7 @@ func wrap(args []string) {
 
 type traceLine struct {
 	B   []int   `json:"b"`
+	Pad int     `json:"pad"`
 	Src string  `json:"src,omitempty"`
 	O   []group `json:"o"`
 }
@@ -199,6 +200,8 @@ func main() {
 		probe(os.Args[2:])
 	case "wrap":
 		wrap(os.Args[2:])
+	case "align":
+		align(os.Args[2:])
 	default:
 		fmt.Fprintln(os.Stderr, "unknown mode", os.Args[1])
 		os.Exit(2)
@@ -318,6 +321,70 @@ func cover(args []string) {
 var classReps = []byte(" \n{}[],:\"\\/bfnrtualseE01-+.x\x01\x7f\x80cA")
 var embeddings = [][2]string{{"[\"abcd\",\n ", "]"}, {"{\"kkkk\":\"ab\\ncd\",\"x\":[12.5e3,\n", "]}"}, {"[\"\\u0041\\ud83d\\ude00\",true,-0.5E-2 ,", "]"}}
 var confusions = []string{"0", "1]", "1}", "\"\":0", ":0", "\"", "\":0", ",0", ",\"\":0", "ull", "rue", "alse", ".5", "e1", "5"}
+
+// ---------------------------------------------------------------- align
+// Refill-aligned variants of the transition cover: the reader front-ends read through a 4096-byte buffer, so a byte (or the
+// three BOM bytes) is placed on, just before and just after a refill boundary by leading spaces. Leading white space does
+// not change the machine state (TraceJson assumes and TLC checks Step(Top, ' ') = Top), so the case is stored as (pad, b).
+func align(args []string) {
+	fs := flag.NewFlagSet("align", flag.ExitOnError)
+	stf := fs.String("states", "", "ndjson of model states with witness and completion")
+	per := fs.Int("per", 6, "byte classes sampled per state (plus BOM and end of input)")
+	fs.Parse(args)
+	f, err := os.Open(*stf)
+	if err != nil {
+		panic(err)
+	}
+	best := map[string]state{}
+	readLines(f, func(l []byte) {
+		var s state
+		if err := json.Unmarshal(l, &s); err != nil {
+			panic(err)
+		}
+		if s.Pc == "Err" || s.Pc == "Cut" || s.Pc == "Start" || s.Pc == "Bom1" || s.Pc == "Bom2" {
+			return
+		}
+		if b, ok := best[s.Key]; !ok || len(s.W) < len(b.W) {
+			best[s.Key] = s
+		}
+	})
+	keys := make([]string, 0, len(best))
+	for k := range best {
+		keys = append(keys, k)
+	}
+	sort.Strings(keys)
+	out := bufio.NewWriterSize(os.Stdout, 1<<20)
+	defer out.Flush()
+	r := rand.New(rand.NewSource(seed()))
+	bounds := []int{4096, 4096, 4096, 8192}
+	emit := func(w, x, c []byte, at int, src string) {
+		// the first byte of x lands on absolute offset `at`
+		pad := at - len(w)
+		if pad <= 0 || (0 < len(w) && w[0] == 0xEF) {
+			return
+		}
+		in := append(append([]byte{}, w...), x...)
+		out.Write(plib.MarshalLine(plib.Case{B: plib.Ints(in), Pad: pad, Src: src}))
+		out.Write(plib.MarshalLine(plib.Case{B: plib.Ints(append(in, c...)), Pad: pad, Src: src + "+c"}))
+	}
+	bomb := []byte{0xEF, 0xBB, 0xBF}
+	for _, k := range keys {
+		s := best[k]
+		w, c := plib.Bytes(s.W), plib.Bytes(s.C)
+		// a BOM in the middle of the input is never white space: on the boundary and straddling it
+		for d := 0; d < 3; d++ {
+			emit(w, bomb, c, 4096-d, "align-bom:"+s.Key)
+		}
+		emit(w, bomb, c, 8192, "align-bom:"+s.Key)
+		// end of input exactly at the boundary, and the completion starting on it
+		emit(w, nil, c, 4096, "align-eof:"+s.Key)
+		for j := 0; j < *per; j++ {
+			x := classReps[r.Intn(len(classReps))]
+			b := bounds[r.Intn(len(bounds))]
+			emit(w, []byte{x}, c, b-r.Intn(2), "align-step:"+s.Key)
+		}
+	}
+}
 
 // ---------------------------------------------------------------- random
 type gen struct {
@@ -630,9 +697,12 @@ func execCases(args []string) {
 				inflight[w] = time.Now().UnixNano()
 				inflightCase[w] = i
 				mu.Unlock()
-				in := plib.Bytes(cases[i].B)
+				in := cases[i].Input()
 				if *setName == "c02" {
-					res[i] = plib.MarshalLine(traceLine{B: cases[i].B, Src: cases[i].Src, O: observeValues(in, setC02)})
+					res[i] = plib.MarshalLine(traceLine{B: cases[i].B, Pad: cases[i].Pad, Src: cases[i].Src, O: observeValues(in, setC02)})
+				} else if 0 < cases[i].Pad {
+					// refill-aligned inputs: the reader variants are the point
+					res[i] = plib.MarshalLine(traceLine{B: cases[i].B, Pad: cases[i].Pad, Src: cases[i].Src, O: observe(in, setC09)})
 				} else {
 					res[i] = plib.MarshalLine(traceLine{B: cases[i].B, Src: cases[i].Src, O: observe(in, set)})
 				}
@@ -676,6 +746,7 @@ func probe(args []string) {
 			ID     int     `json:"id"`
 			API    string  `json:"api"`
 			Probes [][]int `json:"probes"`
+			Pad    int     `json:"pad"`
 		}
 		if err := json.Unmarshal(l, &p); err != nil {
 			panic(err)
@@ -688,7 +759,7 @@ func probe(args []string) {
 		}
 		k := 0
 		for i, pr := range p.Probes {
-			o := plib.Call(api, chunk, plib.Bytes(pr), false)
+			o := plib.Call(api, chunk, plib.Case{B: pr, Pad: p.Pad}.Input(), false)
 			if o.R != 1 {
 				k = i + 1
 				break
